@@ -227,3 +227,12 @@ Proof.
   exists ("TxED-1", "f-1")%string, ("TxED-2", "f-1")%string.
   split; [intros H; inversion H|vm_compute; reflexivity].
 Qed.
+
+(* every collector of the CURRENT source writes the tolerance of ITS OWN kind of run
+   into the shared solver options right before it hands its task over *)
+Lemma mpshape_tol_writes : forall k, collector_tol_writes k = TWrite k.
+Proof. intros []; vm_compute; reflexivity. Qed.
+
+Lemma history_tasks_tolerance_lemma {A} (tf tg : A) (wrap : bool) ops st reg :
+  Forall (task_ok tf tg) (run_hist tf tg collector_tol_writes wrap st reg ops).
+Proof. apply run_hist_ok. exact mpshape_tol_writes. Qed.
